@@ -35,6 +35,7 @@ type cthread struct {
 	cancelled bool
 	gid       int64 // goroutine id of the lookup (to read its scheduler state)
 	sched     *csched
+	startAt   time.Time
 }
 
 type csched struct {
@@ -88,12 +89,16 @@ type concRun struct {
 	cached map[string]bool
 }
 
-func newConcRun(names []string, rt string) (*concRun, error) {
+func newConcRun(names []string, rt string, fetch ...time.Duration) (*concRun, error) {
 	if rt == "" {
 		rt = "cds"
 	}
 	installYield()
-	w, err := newWorld(worldOpts{ndsNotRequired: true, fetchTimeout: time.Hour})
+	ft := time.Hour
+	if len(fetch) > 0 && fetch[0] > 0 {
+		ft = fetch[0]
+	}
+	w, err := newWorld(worldOpts{ndsNotRequired: true, fetchTimeout: ft})
 	if err != nil {
 		return nil, err
 	}
@@ -207,7 +212,7 @@ func (r *concRun) waitParked(id int, d time.Duration) bool {
 }
 
 func (r *concRun) start(id int, name string) {
-	t := &cthread{id: id, name: name, gate: make(chan struct{}), sched: r.s}
+	t := &cthread{id: id, name: name, gate: make(chan struct{}), sched: r.s, startAt: time.Now()}
 	ctx, cancel := context.WithCancel(context.WithValue(context.Background(), ctxKey{}, t))
 	t.cancel = cancel
 	r.s.mu.Lock()
@@ -261,6 +266,7 @@ func (r *concRun) release(id int) {
 		if r.waitParked(id, 5*time.Second) {
 			p, _, _, _ := r.snapshot(id)
 			e["at"] = p
+			e["elapsedMs"] = time.Since(t.startAt).Milliseconds()
 		}
 		r.trace = append(r.trace, e)
 		return
@@ -406,6 +412,7 @@ type concScenario struct {
 	updates [][][2]string // cluster sets to deliver, in order
 	cancels []int         // threads whose deadline may fire
 	evicts  []string
+	fetch   time.Duration // fetch timeout of the manager (0: one hour, deadlines come from caller cancellation only)
 }
 
 func runSchedule(c *ctx, sc concScenario, actions []string, emit bool) (avail []string, lost bool) {
@@ -417,7 +424,7 @@ func runSchedule(c *ctx, sc concScenario, actions []string, emit bool) (avail []
 			names = append(names, n)
 		}
 	}
-	r, err := newConcRun(names, sc.rt)
+	r, err := newConcRun(names, sc.rt, sc.fetch)
 	if err != nil {
 		fmt.Println("conc:", err)
 		return nil, false
@@ -448,6 +455,9 @@ func runSchedule(c *ctx, sc concScenario, actions []string, emit bool) (avail []
 			nm = a[1:]
 			evicted[nm] = true
 			r.evict(nm)
+		case 'S': // real time passes (only in fixed schedules)
+			fmt.Sscanf(a, "S%d", &k)
+			time.Sleep(time.Duration(k) * time.Millisecond)
 		}
 	}
 	// what can happen next (from the observed phases)
@@ -481,7 +491,7 @@ func runSchedule(c *ctx, sc concScenario, actions []string, emit bool) (avail []
 	}
 	if emit {
 		r.finish()
-		sj := obj{"names": sc.names, "rt": r.rt}
+		sj := obj{"names": sc.names, "rt": r.rt, "ftMs": sc.fetch.Milliseconds()}
 		c.emit(obj{"op": "sched", "scenario": sj, "actions": actions, "trace": r.trace})
 	}
 	return avail, false
@@ -709,7 +719,16 @@ func init() {
 			runSchedule(c, aba, []string{"T0", "T0", "T0", "C0", "D", "Ec1", "T1", "T1", "T1", "T0", "D"}, true)
 			aba2 := concScenario{names: []string{"c1", "c1"}, updates: [][][2]string{{{"c1", "c1#1"}}, {{"other", "o#2"}}, {{"c1", "c1#3"}}}, cancels: []int{0}}
 			runSchedule(c, aba2, []string{"T0", "T0", "T0", "C0", "D", "D", "T1", "T1", "T1", "T0", "D"}, true)
-			c.count("fixed.schedules", 2)
+			// "stale timer": a lookup is woken before its fetch timeout but is held up (a slow handler, a busy lock) until
+			// after it; whatever it leaves behind, the next lookup's deadline is ITS OWN fetch timeout, not an instant
+			stale := concScenario{names: []string{"c1", "c2"}, updates: [][][2]string{{{"c1", "c1#1"}}, {{"c2", "c2#2"}}}, fetch: 400 * time.Millisecond}
+			func() {
+				// on one processor, so that whatever the first lookup recycles is what the next one picks up
+				old := runtime.GOMAXPROCS(1)
+				defer runtime.GOMAXPROCS(old)
+				runSchedule(c, stale, []string{"T0", "T0", "T0", "D", "S480", "T0", "T1", "T1", "T1", "D"}, true)
+			}()
+			c.count("fixed.schedules", 3)
 		}
 		for i, sc := range scen {
 			if c.noEnum {
